@@ -179,6 +179,83 @@ theorem InputOK.accepted (h : p.InputOK) : p.Accepted where
   no_shared := h.no_shared
 
 variable (p) in
+/-- what has to be true for masks given by the caller (`fully_diagonalize` a dictionary): the input facts, and the two facts about the masks that
+`block_diagonalize` checks — symmetric (Hermitian mode), and no entry selected between levels that are equal within `atol` -/
+structure MasksOK : Prop where
+  wf : ∀ t ∈ p.terms, t.2.d = p.d
+  blocks_lt : ∀ a : Fin p.d, p.blk a.val < p.nblocks
+  atol_nonneg : 0 ≤ p.atol
+  herm : ∀ t ∈ p.terms, ∀ a b : Fin p.d, star (t.2.get b.val a.val) = t.2.get a.val b.val
+  h0_diag : ∀ t ∈ p.terms, t.1 = p.zeroOrder → ∀ a b : Fin p.d, a ≠ b → t.2.get a.val b.val = 0
+  blocks_apart : ∀ a b : Fin p.d, p.blk a.val ≠ p.blk b.val → Scalar.absGt (p.energy a.val - p.energy b.val) p.atol = true
+  no_shared : ∀ a b : Fin p.d, p.blk a.val ≠ p.blk b.val → Scalar.isClose (p.energy a.val) (p.energy b.val) = false
+  masks : ∃ l, p.fdEff = .dict l
+  mask_symmetric : ∀ a b : Fin p.d, p.blk a.val = p.blk b.val → p.elim a.val b.val = p.elim b.val a.val
+  mask_spares_equal_levels : ∀ a b : Fin p.d, p.blk a.val = p.blk b.val → p.elim a.val b.val = true → p.equalEigs a.val b.val = false
+
+theorem MasksOK.accepted (h : p.MasksOK) : p.Accepted where
+  wf := h.wf
+  blocks_lt := h.blocks_lt
+  atol_nonneg := h.atol_nonneg
+  herm := h.herm
+  h0_diag := h.h0_diag
+  elim_symm := by
+    intro a b hblk
+    unfold elimIn
+    rw [hblk, h.mask_symmetric a b hblk]
+  diag_kept := by
+    intro a
+    unfold keptE elimIn
+    rw [beq_self_eq_true, Bool.true_and]
+    by_cases he : p.elim a.val a.val = true
+    · have := h.mask_spares_equal_levels a a rfl he
+      unfold equalEigs at this
+      rw [sub_self, absGt_zero h.atol_nonneg] at this
+      cases this
+    · have : p.elim a.val a.val = false := by simpa using he
+      rw [this, Bool.and_false]; rfl
+  gap := by
+    intro a b hk
+    by_cases hblk : p.blk a.val = p.blk b.val
+    · unfold keptE elimIn at hk
+      rw [hblk, beq_self_eq_true, Bool.true_and] at hk
+      have hel : p.elim a.val b.val = true := by
+        cases hs : p.selected (p.blk b.val) <;> simp [hs] at hk
+        exact hk
+      have := h.mask_spares_equal_levels a b hblk hel
+      unfold equalEigs at this
+      simpa using this
+    · exact h.blocks_apart a b hblk
+  comm_trans := by
+    intro a b c hc hab hcb
+    obtain ⟨l, hl⟩ := h.masks
+    have hsel : p.selected (p.blk a.val) = false := by
+      unfold commuting at hc
+      unfold selected
+      simp only [hl] at hc ⊢
+      simpa using hc
+    unfold keptE elimIn at *
+    rw [Bool.and_eq_true] at hab hcb ⊢
+    have e1 : p.blk a.val = p.blk b.val := beq_iff_eq.mp hab.1
+    have e2 : p.blk c.val = p.blk b.val := beq_iff_eq.mp hcb.1
+    refine ⟨beq_iff_eq.mpr (e1.trans e2.symm), ?_⟩
+    rw [hsel]; rfl
+  no_shared := h.no_shared
+
+/-- the dict-mask witness of `Witness.lean` meets it -/
+theorem wd_masks : wd.MasksOK where
+  wf := by decide
+  blocks_lt := by decide
+  atol_nonneg := by decide +kernel
+  herm := by decide
+  h0_diag := by decide +kernel
+  blocks_apart := by decide +kernel
+  no_shared := by decide +kernel
+  masks := ⟨_, rfl⟩
+  mask_symmetric := by decide +kernel
+  mask_spares_equal_levels := by decide +kernel
+
+variable (p) in
 /-- `Accepted` without its transitivity clause -/
 structure AcceptedCore : Prop where
   wf : ∀ t ∈ p.terms, t.2.d = p.d
